@@ -27,6 +27,14 @@ func init() {
 			"ok(_.CreateTokenExchangeRequest(_, $r0))",
 		})
 	obs := []Ob{
+		{ID: "E1.exchange.jwt.policy-claims", Fn: "op.CreateJWT", P: []string{"ctx", "issuer", "tokenRequest", "exp", "id", "client", "storage"}, Kind: "call", Pat: "crypto.Sign($claims, $signer)", Min: 1, Max: 1,
+			Why: "sibling of CreateIDToken: the private claims of an exchanged JWT access token come from the token-exchange policy hook",
+			Req: []string{"notis($tokenRequest, TokenExchangeRequest) || notis($storage, TokenExchangeStorage) || nil($client) || (ok(_.GetPrivateClaimsFromTokenExchangeRequest(_, _)) && def($pc, _.GetPrivateClaimsFromTokenExchangeRequest(_, _), 0) && eq($claims.Claims, $pc))"}},
+		// the exchanged ID token carries what the storage policy decided: whenever request and storage take part in token
+		// exchange, the policy hook ran successfully and its claims were merged before signing - whatever the granted scopes
+		{ID: "E1.exchange.idtoken.policy-claims", Fn: "op.CreateIDToken", P: []string{"ctx", "issuer", "request", "validity", "accessToken", "code", "storage", "client"}, Kind: "call", Pat: "crypto.Sign($claims, $signer)", Min: 1, Max: 1,
+			Why: "subject, scopes and actor of an exchanged ID token are the ones the storage policy decided",
+			Req: []string{"notis($request, TokenExchangeRequest) || notis($storage, TokenExchangeStorage) || (ok(_.SetUserinfoFromTokenExchangeRequest(_, $ui, _)) && called($claims.SetUserInfo($ui)))"}},
 		{ID: "E1.te.validation.provider", Fn: "op.ValidateTokenExchangeRequest", P: []string{"ctx", "req", "clientID", "clientSecret", "exchanger"}, Kind: "call", Pat: "op.CreateTokenExchangeRequest(_, $req, $client, _)", Max: 1,
 			Why: "sibling validation set: subject token and type present, all declared token types supported",
 			Req: split(sup)},
